@@ -10,7 +10,7 @@ from ..frontend import ClassInfo, norm
 from ..interp import Config, Interp
 from ..ownership import Ownership, owner
 from ..report import Ctx
-from ..values import (ALL_KINDS, META_KINDS, NODE_KINDS, SBool, SDict, SFunc, SList, SNew, SObj, SOpaque, SSplat, SStr, Sym, Unmodelled, short)
+from ..values import (ALL_KINDS, ANY_VALUE_KINDS, META_KINDS, NODE_KINDS, SBool, SDict, SFunc, SList, SNew, SObj, SOpaque, SSplat, SStr, Sym, Unmodelled, short)
 
 CORE = "htmltools._core"
 ENTRIES = [
@@ -306,6 +306,7 @@ def equality(ctx: Ctx, I: Interp) -> None:
                 and isinstance(l.value, SBool) and not [a for a in l.atoms]
             if deleg:
                 ctx.ok("C08.eq", f"{cls}.__eq__ delegates to _equals_impl(self, other)")
+                _uniform_instance_dict(ctx, I, cls, kind)
                 continue
             # a hand-written comparison: which fields does it look at?
             fields = _init_fields(ctx, I, cls)
@@ -336,6 +337,73 @@ def equality(ctx: Ctx, I: Interp) -> None:
 
 
 _field_cache: Dict[str, List[str]] = {}
+_uniform_done: set = set()
+
+
+def _uniform_instance_dict(ctx: Ctx, I: Interp, cls: str, kind: str) -> None:
+    """_equals_impl walks x.__dict__ of its *left* operand: the comparison is complete and symmetric only if every
+    instance carries the same set of instance attributes, i.e. every returning path of __init__ stores the same fields."""
+    if cls in _uniform_done:
+        return
+    _uniform_done.add(cls)
+    prog = ctx.prog
+    ci = prog.get_class(cls)
+    m = prog.find_method(ci, "__init__")
+    if m is None or not m[0].module.name.startswith("htmltools"):
+        return
+    fn = m[1]
+    where = f"{CORE}:{m[0].name}.__init__"
+    cfg = Config()
+    cfg.opaque_all = True
+    cfg.coarse_counts = True
+    cfg.loop_effects = False
+
+    def mk(run: Any):
+        s = SObj("self", {kind}, origin="new")
+        run.__dict__["s"] = s
+        b: Dict[str, Any] = {fn.args.args[0].arg: s}
+        return (b, s)
+
+    sets: Dict[frozenset, Any] = {}
+    for l in _run_init(I, m[0], fn, mk, cfg):
+        if l.kind != "return":
+            continue
+        s_ = l.run.__dict__["s"]
+        stored = frozenset(e.key for e in l.effects if e.kind == "store_attr" and e.target is s_)
+        sets.setdefault(stored, l)
+    ctx.require(bool(sets), f"{cls}.__init__: no returning path")
+    allf = frozenset().union(*sets.keys())
+    for st, l in sets.items():
+        missing = sorted(allf - st)
+        cond = [str(lbl) for _, lbl in l.atoms][:3]
+        ctx.check(not missing, "C08.eq", f"every returning path of {cls}.__init__ stores the same instance attributes", where,
+                  f"path {cond} stores {sorted(st)}",
+                  f"on the path {cond} {cls}.__init__ does not store {missing} in the instance: _equals_impl compares the attributes found in the left "
+                  f"operand's __dict__, so two objects that differ in {missing} compare equal from one side and unequal from the other",
+                  witness="Tag('span', 'a') == Tag('span', 'a', _add_ws=False)  vs the reversed comparison" if "add_ws" in missing else None)
+
+
+def _run_init(I: Interp, ci: Any, fn: Any, mk: Any, cfg: Config) -> List[Any]:
+    """Run __init__ with every parameter bound to a value of the kinds its annotation allows."""
+    def mk2(run: Any):
+        b, s = mk(run)
+        a = fn.args
+        for p in a.args[1:] + a.kwonlyargs:
+            try:
+                ks = run.ev.kinds_from_annotation(p.annotation, ci.module) if p.annotation is not None else None
+            except Exception:
+                ks = None
+            if ks and ks <= frozenset({"TRUE", "FALSE"}):
+                b[p.arg] = SBool(("param", p.arg))
+            else:
+                b[p.arg] = SObj(p.arg, ks or ANY_VALUE_KINDS)
+        if a.vararg:
+            o = SObj(a.vararg.arg, {"TUPLE"})
+            b[a.vararg.arg] = o
+        if a.kwarg:
+            b[a.kwarg.arg] = SObj(a.kwarg.arg, {"DICT"})
+        return b, s
+    return I.run_function(CORE, f"{ci.name}.__init__", mk2, cfg)
 
 
 def _init_fields(ctx: Ctx, I: Interp, cls: str) -> List[str]:
@@ -496,7 +564,7 @@ def check(ctx: Ctx) -> None:
         "x.__dict__; a transient field written by __enter__ is reset by __exit__ on every path.")
     ctx.trust("copy.copy/deepcopy semantics; UserList.__copy__ as parsed from the stdlib", "Engine A abstract semantics")
     ctx.assume("user-supplied tagify()/_repr_html_()/__str__ are pure", "typing.cast claims are correct",
-               "functions of htmltools._jsx are a boundary here; their purity is C20's obligation")
+               "functions of htmltools._jsx are a boundary for the ownership analysis here (C20 runs it on them); the visitor table of JSXTag.tagify is shared")
     I = Interp(ctx.prog)
     ok = tagify_table(ctx, I)
     O = purity(ctx, ok)
@@ -505,3 +573,8 @@ def check(ctx: Ctx) -> None:
     delegation(ctx, I)
     equality(ctx, I)
     transient_fields(ctx, I)
+    # JSXTag.tagify(): the per-node table of its visitor (every mutable node copied or expanded, metadata nodes included);
+    # the ownership part of the JSX conversion stays with C20
+    from .c20 import visitor_table, walker_coverage
+    walker_coverage(ctx, I)
+    visitor_table(ctx, I)
